@@ -10,6 +10,12 @@ NOTE_COMMON = ("Trusted: Coq 8.16.1 kernel and vm_compute (no native_compute); t
 CHECKS = {
  "C01": dict(text="Theorems (Coq, closed under the global context, unbounded n): the swap-tracked pivot list of CCQR/GQR is a permutation of 0..n-1 for every offset sequence; the SSPOR tail shuffle and the [:n_sensors] slice preserve validity; executable permutation checkers are sound. Correspondence: the model's swap replay of the observed leading pivots must reproduce the full observed ranking of QR/CCQR/GQR, shuffle_tail/selected must reproduce SSPOR.all_sensors/selected_sensors, SSPOC selections are checked by the verified checkers; LAPACK/numpy permutation contracts are validated inside Coq per case.",
              technique="Coq proof (induction over the swap list, Permutation) + vm_compute correspondence on observed rankings", ref="5/C01"),
+ "C14": dict(text="Theorems (Coq, closed, all histories): on the SSPOR token machine a setter changes nothing but n_sensors and a rejected setter changes nothing; fit's matrix/ranking tokens do not mention n_sensors; after ANY sequence of accepted/rejected setter calls and observers the observable state equals that of a fresh model constructed with the final value (setters_equiv_ctor, by induction over the history). Correspondence: random setter/observer histories on real SSPOR objects are compared step by step with the Coq machine (outcome class, n_sensors, and the model's tokens evaluated by FRESH real objects); the oracle compares selection, ranking, predictions and score bitwise with SSPOR(n_sensors=final).fit(...).",
+             technique="Coq proof (state machine, induction over operation lists) + vm_compute correspondence on random histories", ref="5/C14"),
+ "C15": dict(text="Theorems (Coq, closed, all histories): refit_fresh - for every all-successful history of fit/update_n_basis_modes/set_number_of_sensors/observers on the token machine, the observable state equals that of a never-fitted model configured with the user's settings and fitted once on the last data ('no stale component' invariant); unconditional for bases with a user-chosen number of modes, with a per-fit side condition otherwise; the unrestricted statement is REFUTED for the faithful model (Identity() freezes its default, a recorded known finding); update_n_basis_modes(k<=fitted) re-ranks on the first k modes of the same basis. Correspondence: random histories over data sets of different widths/row counts on real objects vs the Coq machine (tokens evaluated by fresh real objects) + from-scratch references.",
+             technique="Coq proof (invariant by induction over histories; refutation by vm_compute witness) + vm_compute correspondence", ref="5/C15"),
+ "C16": dict(text="Theorems (Coq, closed): with SSPOR.fit's ranking modelled as firstn m r ++ perm_of seed (skipn m r) for an ARBITRARY function perm_of, the leading m sensors are the optimizer's and are the same for every seed, the trailing sets are permutations of each other (under the permutation contract of the generator), equal seeds give equal rankings. Correspondence: for pairs of seeds the model's shuffle_tail applied to a fresh optimizer's ranking and numpy's own permutation must equal SSPOR.all_sensors exactly, for all bases/optimizers, also when the same object is fitted repeatedly.",
+             technique="Coq proof (list algebra over an arbitrary permutation oracle) + vm_compute correspondence", ref="5/C16"),
 }
 NOT_APPLICABLE = {}
 def main():
